@@ -98,18 +98,25 @@ def run(E: Engine, rep: Report, tier: str) -> dict:
         _v, exit_fact = ga.run(E.R.effective(vap))
         rep.check(exit_fact, "PASS", f"Sequence._validate_and_adjust_pulse|passes-{label}", f"every path to the return passes {label}", f"_validate_and_adjust_pulse can return without calling {label}", E.where(vap))
     # adjusted duration flows into the returned waveforms
-    ab = abstractor(E.flow(vap))
-    rets = [n for n in ast.walk(vap.node) if isinstance(n, ast.Return) and n.value is not None]
-    for r in rets:
-        v = r.value
-        ok = False
-        if isinstance(v, ast.Call) and len(v.args) >= 2:
-            a0, a1 = ab.av(v.args[0]), ab.av(v.args[1])
-            ok = all(
-                any(x.endswith(".change_duration()") and x.startswith(f"pulse.{w}") for x in a.roots) and any(x.startswith("arg<-") and x.endswith(".validate_duration()") for x in a.roots)
-                for a, w in ((a0, "amplitude"), (a1, "detuning"))
-            )
-        rep.check(ok, "PASS", "Sequence._validate_and_adjust_pulse|adjusted-duration-reaches-waveforms", "returned pulse's waveforms come from change_duration(<validate_duration result>) (or are the originals when unchanged)", f"the validated/adjusted duration no longer flows into the returned pulse: {norm(v)}", E.where(vap, r))
+    from .. import sym as _sym0
+    from .symutil import S as _S0, is_ as _is0, sh as _sh0
+
+    rv_ = _S0(E, vap).ret
+    pulses_ = [c for c in _sym0.subterms(rv_) if c[0] == "call" and c[1] == ("name", "Pulse")]
+
+    def _field(c, i, name):
+        for k, v in c[3]:
+            if k == name:
+                return v
+        return c[2][i] if i < len(c[2]) else None
+
+    ok = bool(pulses_)
+    for c in pulses_:
+        for i_, w in ((0, "amplitude"), (1, "detuning")):
+            v = _field(c, i_, w)
+            m = _is0(v, f"pulse.{w} if Q_d == pulse.duration else pulse.{w}.change_duration(Q_d)") if v is not None else None
+            ok = ok and m is not None and _is0(m["Q_d"], "Q_ch.validate_duration(pulse.duration)") is not None
+    rep.check(ok, "PASS", "Sequence._validate_and_adjust_pulse|adjusted-duration-reaches-waveforms", "returned pulse's waveforms come from change_duration(<validate_duration result>) (or are the originals when unchanged)", f"the validated/adjusted duration no longer flows into the returned pulse: {_sh0(rv_, 300)}", E.where(vap))
     # DMM.validate_pulse passes super().validate_pulse
     def est_super(fl_: FunctionFlow, e: Event) -> bool:
         return e.kind == "call" and bool(e.callees) and all(c.innermost() is ch_vp for c, _m in e.callees)
